@@ -551,8 +551,27 @@ def r11_no_conversion_between_arrays(ctx, T, rule="C12.R11"):
                        % (en, pn, "accepted" if rs == ["1"] else "refused",
                           "the generator has no conversion for arrays and the program ends in an internal failure "
                           "(`Cannot cast Array(..) into Array(..)`)" if rs == ["1"] else "a correct call is refused"))
+    # ... and the same for records: the casting emitter has no arm for a record either.  With names the analysis knows
+    # nothing about, `record -> record parameter` may be neither always accepted (the names have to be compared) nor
+    # always refused, and a record never goes with a built-in parameter or the other way round
+    rec_e = T.eng.make(ET, "UserDefined", {})
+    rec_p = T.eng.make(RPT, "UserDefined", {})
+    rs = sorted({tf.shape(x) for x in T.eng.summary(fn, (tf.Ref(rec_e), tf.Ref(rec_p)))})
+    n += 1
+    ctx.decide(rs not in (["1"], ["0"]), rule, "%s:record->record" % rule, fn.loc, "depends on the two type names (%s)" % rs,
+               "a record passed by value (in parentheses) to a record parameter is %s whatever the two TYPE names are: %s"
+               % ("accepted" if rs == ["1"] else "refused",
+                  "the generator has no conversion between records and the program ends in an internal failure "
+                  "(`Cannot cast UserDefined(Card) into UserDefined(Account)`)" if rs == ["1"] else "a correct call is refused"))
+    for pn, pv_ in params[:2]:
+        for what, a, pt in (("record->%s" % pn, rec_e, pv_), ("%s->record" % pn, elems[[e[0] for e in elems].index(pn)][1], rec_p)):
+            rs = sorted({tf.shape(x) for x in T.eng.summary(fn, (tf.Ref(a), tf.Ref(pt)))})
+            n += 1
+            ctx.decide(rs == ["0"], rule, "%s:%s" % (rule, what), fn.loc, "refused",
+                       "%s by value is not refused (%s): the generator has no such conversion and the program ends in an "
+                       "internal failure" % (what, rs))
     ctx.analysed_units(rule, cells=n)
-    ctx.require(rule, 30)
+    ctx.require(rule, 35)
 
 
 def r12_argument_count_is_compared_for_equality(ctx, rule="C12.R12"):
